@@ -21,7 +21,10 @@ SHAPES = ["same", "first_base", "second_base", "virtual_base", "two_levels",
 NV = ["int", "tval_l", "tval_r", "tref", "tcref", "trref", "uptr_rref",
       "uptr_val"]
 RETS = ["void", "int", "tval", "tref"]
-POLICIES = ["debug", "release"]
+# "custom": a policy whose rtti facet is not the language's: static ids are
+# the addresses of per-type statics (minimal_rtti, which tells `const T` from
+# `T`), dynamic ids are read from a field of the object
+POLICIES = ["debug", "release", "custom"]
 
 
 def gen_case(rng):
@@ -35,6 +38,12 @@ def gen_case(rng):
         "policy": rng.choice(POLICIES),
     }
     case["vpos"] = rng.randrange(n_nv + 1)
+    # definitions may also be member functions of the definition's class,
+    # registered with add_member_function: the method's first parameter is
+    # then the virtual T* that becomes `this`
+    if case["vkind"] == "ptr" and rng.random() < 0.5:
+        case["member"] = True
+        case["vpos"] = 0
     return case
 
 
@@ -70,6 +79,23 @@ struct Tracked {
     Tracked& operator=(const Tracked&) = delete;
 };
 
+struct IdBase { type_id dyn_id = 0; };
+struct custom_rtti : policy::minimal_rtti {
+    template<typename T> static type_id dynamic_type(const T& obj) {
+        if constexpr (std::is_base_of_v<IdBase, T>) {
+            return static_cast<const IdBase&>(obj).dyn_id;
+        } else {
+            return static_type<T>();
+        }
+    }
+    template<typename D, typename B> static D dynamic_cast_ref(B&& obj) {
+        return dynamic_cast<D>(obj);
+    }
+};
+struct custom_policy : policy::debug::rebind<custom_policy>::replace<
+                           policy::rtti, custom_rtti> {};
+#define IDCTOR(K) K() { this->dyn_id = policy::minimal_rtti::static_type<K>(); }
+
 static int g_failures = 0;
 static std::string g_msg;
 static bool g_known_multi_move = false;
@@ -88,36 +114,37 @@ static Tracked g_ret_obj(4242);
 """
 
 
-def shape_classes(shape, most_is_def):
+def shape_classes(shape, most_is_def, memdecl=""):
     pad = "struct Pad { virtual ~Pad() {} long pad[3] = {1, 2, 3}; };\n" \
           "struct Pad2 { virtual ~Pad2() {} long pad2[2] = {4, 5}; };\n"
-    base = "struct Base { virtual ~Base() {} int b = 11; };\n"
+    base = "struct Base : IdBase { IDCTOR(Base) virtual ~Base() {} int b = 11; %s};\n" % (
+        memdecl if shape == "same" else "")
     if shape == "same":
         body = "using Der = Base;\n"
     elif shape == "first_base":
-        body = "struct Der : Base, Pad { int d = 12; };\n"
+        body = "struct Der : Base, Pad { IDCTOR(Der) int d = 12; " + memdecl + "};\n"
     elif shape == "second_base":
-        body = "struct Der : Pad, Base { int d = 12; };\n"
+        body = "struct Der : Pad, Base { IDCTOR(Der) int d = 12; " + memdecl + "};\n"
     elif shape == "virtual_base":
-        body = "struct Der : virtual Base { int d = 12; };\n"
+        body = "struct Der : virtual Base { IDCTOR(Der) int d = 12; " + memdecl + "};\n"
     elif shape == "two_levels":
-        body = "struct Mid : Pad, Base { int m = 13; };\n" \
-               "struct Der : Pad2, Mid { int d = 12; };\n"
+        body = "struct Mid : Pad, Base { IDCTOR(Mid) int m = 13; };\n" \
+               "struct Der : Pad2, Mid { IDCTOR(Der) int d = 12; " + memdecl + "};\n"
     else:
-        body = "struct L : virtual Base { int l = 14; };\n" \
-               "struct R : virtual Base { long r = 15; };\n" \
-               "struct Der : L, R { int d = 12; };\n"
+        body = "struct L : virtual Base { IDCTOR(L) int l = 14; };\n" \
+               "struct R : virtual Base { IDCTOR(R) long r = 15; };\n" \
+               "struct Der : L, R { IDCTOR(Der) int d = 12; " + memdecl + "};\n"
     if most_is_def:
         most = "using Most = Der;\n"
     else:
-        most = "struct Most : Der { long most = 16; };\n"
+        most = "struct Most : Der { IDCTOR(Most) long most = 16; };\n"
     # a second most-derived class with another layout: the same definition
     # must adjust correctly for objects of both
     most += "struct Pad3 { virtual ~Pad3() {} long pad3[5] = {6, 7, 8, 9, 10}; };\n"
     if shape == "same":
-        most += "struct Most2 : Pad3, Base { long most2[3] = {17, 18, 19}; };\n"
+        most += "struct Most2 : Pad3, Base { IDCTOR(Most2) long most2[3] = {17, 18, 19}; };\n"
     else:
-        most += "struct Most2 : Pad3, Der { long most2[3] = {17, 18, 19}; };\n"
+        most += "struct Most2 : Pad3, Der { IDCTOR(Most2) long most2[3] = {17, 18, 19}; };\n"
     reg = ["Base"]
     if shape == "two_levels":
         reg.append("Mid")
@@ -199,15 +226,20 @@ def nv_see(cat, i):
 
 
 def emit_case(idx, case):
-    pol = "policy::" + case["policy"]
-    classes, reg = shape_classes(case["shape"],
-                                 case["most_derived_is_def_class"])
+    pol = "custom_policy" if case["policy"] == "custom" else \
+        "policy::" + case["policy"]
     kind = case["vkind"]
     nv = case["nv"]
     vpos = case["vpos"]
     ret = case["ret"]
     ret_t = {"void": "void", "int": "int", "tval": "Tracked",
              "tref": "Tracked&"}[ret]
+    member = case.get("member", False)
+    memparams = ", ".join("%s a%d" % (NV_TYPE[c], k)
+                          for k, c in enumerate(nv))
+    classes, reg = shape_classes(
+        case["shape"], case["most_derived_is_def_class"],
+        "%s memfn(%s); " % (ret_t, memparams) if member else "")
     # parameter lists
     decl, dparams, bparams = [], [], []
     k = 0
@@ -242,12 +274,21 @@ def emit_case(idx, case):
             ret_t, ", ".join(bparams),
             {"void": "", "int": "return -1;", "tval": "return Tracked(-1);",
              "tref": "return g_ret_obj;"}[ret]))
-    out.append("define_method(%s, fn, (%s)) {" % (ret_t, ", ".join(dparams)))
+    if member:
+        out.append("%s Der::memfn(%s) {" % (ret_t, memparams))
+    else:
+        out.append("define_method(%s, fn, (%s)) {" % (
+            ret_t, ", ".join(dparams)))
     out.append("    which_def = 2; seen_copies = Tracked::copies; "
                "seen_moves = Tracked::moves;")
-    out.append("    " + vsee(kind) + " " + sees)
+    out.append("    " + ("seen_virtual = this;" if member else vsee(kind)) +
+               " " + sees)
     out.append("    " + body_ret)
     out.append("}")
+    if member:
+        out.append("static method_class(%s, fn, (%s), P)::"
+                   "add_member_function<&Der::memfn> reg_member;" % (
+                       ret_t, ", ".join(decl)))
     # the caller
     out.append("template<class Most> static void run_with(const char* "
                "which) {")
@@ -384,6 +425,7 @@ def emit_program(cases):
     parts.append("int main() {")
     parts.append("    update<policy::debug>();")
     parts.append("    update<policy::release>();")
+    parts.append("    update<custom_policy>();")
     for i in range(len(cases)):
         parts.append("    case_%d::run();" % i)
     parts.append("    return 0;")
@@ -448,6 +490,16 @@ def run_unit(args):
             else:
                 out.append(r[0])
         return out
+    if len(cases) > 1 and any(r[0] == "FAIL" and r[2].startswith("crash:")
+                              for r in res):
+        # the program died: the cases that did not report are run one by one,
+        # so that a crash is attributed to the case that causes it
+        for i, c in enumerate(cases):
+            if res[i][0] == "FAIL" and res[i][2].startswith("crash:"):
+                r = build_and_run([c], workdir, "%s_c%d" % (name, i), inc,
+                                  flags)
+                res[i] = ("FAIL", nontrivial(c), r) if isinstance(r, str) \
+                    else r[0]
     return res
 
 
@@ -474,7 +526,9 @@ def check(tier, seed, scratch, inc, ncpu, pool_map):
         for case, (status, adjusted, msg) in zip(cases, outs):
             res["evaluations"] += 1
             for label in ("vkind=" + case["vkind"], "shape=" + case["shape"],
-                          "policy=" + case["policy"]):
+                          "policy=" + case["policy"]) + (
+                              ("definition_is_member_function",)
+                              if case.get("member") else ()):
                 res["classes"][label] = res["classes"].get(label, 0) + 1
             for c in set(case["nv"]):
                 res["classes"]["nv=" + c] = res["classes"].get("nv=" + c,
@@ -522,4 +576,8 @@ def shrinks(case):
         out.append(dict(case, most_derived_is_def_class=True))
     if case["policy"] != "debug":
         out.append(dict(case, policy="debug"))
+    if case.get("member"):
+        c = dict(case)
+        del c["member"]
+        out.append(c)
     return out
